@@ -321,3 +321,11 @@ func VerifNewBlock(http bool, content []byte, cached bool, maxMem int64) (Block,
 
 // VerifSetNow fixes the package clock (the `now` variable warcfile.go already keeps for its own tests).
 func VerifSetNow(t time.Time) { now = func() time.Time { return t } }
+
+// VerifSetHost fixes what the name generator takes for the node's IP address and host name (package variables that
+// warcfile.go keeps for exactly this purpose).
+func VerifSetHost(h, i string) {
+	host = func() string { return h }
+	hostOrIp = func() string { return h }
+	ip = func() string { return i }
+}
